@@ -63,7 +63,8 @@ Inductive perr :=
 | E_expected (t : toktype) | E_map_key | E_dup_key | E_bad_num | E_anon_var | E_unknown_var
 | E_func_needs_parens | E_bad_type | E_assert_any
 | E_type (s : tsite)     (* a typing error (typing itself is not modelled, see e_tyerr) *)
-| E_stmt (code : nat).   (* the appendError sites of parser.go, numbered in Parser.v *)
+| E_stmt (code : nat)    (* the appendError sites of parser.go, numbered in Parser.v *)
+| E_arity.               (* assertArgTypes: wrong number of arguments (the blamed token, arg.Token(), is not mirrored) *)
 
 (* ---------- parser state ---------- *)
 Record pstate := {
@@ -78,6 +79,7 @@ Record pstate := {
 
 (* the environment the parser consults: p.funcs (name, isNiladic) and the variables in scope *)
 Record env := { e_funcs : list (str * bool); e_vars : list str;
+                 e_arity : list (str * option nat);   (* p.funcs: number of parameters, None = variadic *)
                  (* the typing oracle: site, the tree being checked, the token the error would blame (tokens left) *)
                  e_tyerr : tsite -> tree -> nat -> bool;
                  (* false = the code as it is; true = parseSlice with the proposed fix
@@ -183,6 +185,17 @@ Fixpoint lookup_func (name : str) (l : list (str * bool)) : option bool :=
   | (n, nil_) :: t => if str_eqb n name then Some nil_ else lookup_func name t
   end.
 Definition func_of (name : str) : option bool := lookup_func name (e_funcs E).
+Fixpoint lookup_arity (name : str) (l : list (str * option nat)) : option (option nat) :=
+  match l with
+  | [] => None
+  | (n, a) :: t => if str_eqb n name then Some a else lookup_arity name t
+  end.
+(* the argument count is wrong for a function with a fixed number of parameters *)
+Definition arity_wrong (name : str) (nargs : nat) : bool :=
+  match lookup_arity name (e_arity E) with
+  | Some (Some n) => negb (Nat.eqb n nargs)
+  | _ => false
+  end.
 
 (* parseMulitlineWS (the recorded items are formatter data, not modelled) *)
 Fixpoint parse_multiline_ws (fuel : nat) (st : pstate) : option pstate :=
@@ -266,8 +279,11 @@ Definition parse_func_call (fuel : nat) (is_top : bool) (niladic : bool) (st : p
   let st1 := advance st in
   if is_top || negb niladic then
     do (args, st2) <- parse_expr_list fuel [] st1;
-    let c := TCall name (match args with Some l => l | None => [] end) in
-    ret (Some c) (if tyerr TS_call_args c (here st2) then add_err (E_type TS_call_args) st2 else st2)
+    let l := match args with Some l => l | None => [] end in
+    let c := TCall name l in
+    (* assertArgTypes: the count first (fixed arity only), then the argument types *)
+    ret (Some c) (if arity_wrong name (List.length l) then add_err E_arity st2
+                  else if tyerr TS_call_args c (here st2) then add_err (E_type TS_call_args) st2 else st2)
   else ret (Some (TCall name [])) st1.
 
 (* parseTopLevelExpr *)
@@ -656,7 +672,7 @@ Definition pratt_case (x : sx) : sx :=
   | Lst [Int k; fx; Lst fs; Lst vs; Lst ts] =>
     match decode_list decode_func fs, decode_list decode_str vs, decode_tokens ts with
     | Some funcs, Some vars, Some toks =>
-      let E := {| e_funcs := funcs; e_vars := vars; e_tyerr := fun _ _ _ => false; e_fix_slice := sym_is fx "true" |} in
+      let E := {| e_funcs := funcs; e_vars := vars; e_arity := []; e_tyerr := fun _ _ _ => false; e_fix_slice := sym_is fx "true" |} in
       let fuel := 2 * List.length toks + 10 in
       match parse_stmt_expr E fuel (Z.to_nat k) toks with
       | None => Lst [Sym (s_ "oof")]
